@@ -140,7 +140,7 @@ def gen_doc(rng, min_widgets=2, max_widgets=5, want_dynamic=True):
     doc = {
         "root": rng.choice(["QDialog", "QWidget"]),
         "title": _s(rng),
-        "layout": rng.choice(["QVBoxLayout", "QHBoxLayout"]),
+        "layout": rng.choice(["QVBoxLayout", "QHBoxLayout", "QVBoxLayout", "QFormLayout", "QGridLayout"]),
         "comment": "",
         "widgets": [],
         "plant": None,
@@ -326,6 +326,17 @@ def plant_kinds(doc):
         if i:
             out.append(("dynamic-spacer-size-member", "layout", "QSpacerItem { sizeHint { width: 20; height: %s.value } }" % i))
             out.append(("dynamic-spacer-size-member", "layout", "QSpacerItem { sizeHint.width: %s.value + 1 }" % i))
+    # attached properties that the enclosing layout has no use for: nothing consumes them, so they must be reported
+    # (by design a vertical box consumes rowStretch, a horizontal one columnStretch, a form row/column; all of them
+    # spans and alignment; only a grid consumes everything)
+    lay = doc["layout"]
+    unused = {"QVBoxLayout": ["columnStretch: 1", "columnMinimumWidth: 12", "rowMinimumHeight: 7", "row: 1", "column: 1"],
+              "QHBoxLayout": ["rowStretch: 2", "columnMinimumWidth: 12", "rowMinimumHeight: 7", "row: 1", "column: 1"],
+              "QFormLayout": ["rowStretch: 2", "columnStretch: 1", "columnMinimumWidth: 12", "rowMinimumHeight: 7"]}.get(lay, [])
+    for wi in anyw[:3]:
+        for u in unused:
+            out.append(("attached-unused-by-layout", wi, "QLayout." + u))
+        out.append(("attached-unused-by-layout", wi, 'QTabWidget.title: "tab"'))
     out.append(("unknown-property", "root", "bogus: true"))
     out.append(("type-mismatch-string", "root", "styleSheet: 7"))
     out.append(("unknown-child-type", "layout", "QNoSuchWidget { }"))
